@@ -183,8 +183,8 @@ func (p *HTTPProxy) ServeHTTP(w http.ResponseWriter, r *http.Request) {
 			targetURL.Path = "/" + targetURL.Path
 		}
 		// strip the encoded form the same way or fall back to the default encoding
-		if strings.HasPrefix(targetURL.RawPath, t.StripPath) {
-			targetURL.RawPath = targetURL.RawPath[len(t.StripPath):]
+		if rest, ok := route.StripEscapedPrefix(targetURL.RawPath, t.StripPath); ok {
+			targetURL.RawPath = rest
 			if !strings.HasPrefix(targetURL.RawPath, "/") {
 				targetURL.RawPath = "/" + targetURL.RawPath
 			}
